@@ -138,16 +138,46 @@ def G(run):
 
 
 def fields_equal(a, b, fields=tuple(X.FIELDS)):
-    return z3.And(*[a[f] == b[f] for f in fields])
+    fs = []
+    for f in fields:
+        fs += ['pobj', 'pval', 'palloc'] if f == 'params' else [f]
+    return z3.And(*[a[f] == b[f] for f in dict.fromkeys(fs)])
+
+
+def QP(run, body):
+    """for all ParameterDict objects o."""
+    if getattr(run, 'strings', None) is not None:
+        refs = list(getattr(run, 'pd_refs', []))
+        return z3.And(*[body(o) for o in refs]) if refs else z3.BoolVal(True)
+    o = _qv('o', X.PDRef)
+    return z3.ForAll([o], body(o))
 
 
 def trial_unchanged(a, b, r, fields=X.TRIAL_FIELDS):
-    return z3.And(*[a[f][r] == b[f][r] for f in fields])
+    """same field values, and (when parameters are among the fields) the very same ParameterDict object with the same content"""
+    fs = list(fields) + (['pobj'] if 'params' in fields else [])
+    return z3.And(*[a[f][r] == b[f][r] for f in fs])
+
+
+def heap_wf(run, h):
+    """every existing Trial holds an existing ParameterDict object (language-level invariant of the heap model)."""
+    return QR(run, lambda r: z3.Implies(h['talloc'][r], h['palloc'][h['pobj'][r]]))
+
+
+def H0_of(run):
+    """snapshot of the heap at the start of the function under contract; the heap invariant is assumed for it."""
+    h = G(run)
+    if getattr(run, 'strings', None) is None:
+        run.axiom(heap_wf(run, h))
+    return h
 
 
 def state_preserved(run, cur, ent):
     """allocation only grows; MetricInformation objects that existed keep their fields."""
     return z3.And(QR(run, lambda r: z3.Implies(ent['talloc'][r], cur['talloc'][r])),
+                  heap_wf(run, cur),
+                  # ParameterDict objects that existed are never mutated in place (new assignments create new objects)
+                  QP(run, lambda o: z3.Implies(ent['palloc'][o], z3.And(cur['palloc'][o], cur['pval'][o] == ent['pval'][o]))),
                   QM(run, lambda m: z3.Implies(ent['mialloc'][m], z3.And(cur['mialloc'][m], cur['goal'][m] == ent['goal'][m],
                                                                          cur['miname'][m] == ent['miname'][m], cur['mirest'][m] == ent['mirest'][m]))))
 
@@ -164,7 +194,7 @@ def batch_loop_frame(run, ctx, xs, cur, ent, done):
 
 
 def entry_heap(ctx):
-    return {f: ctx.entry_ghost['H.' + f] for f in X.FIELDS}
+    return X.snap_of(ctx.entry_ghost)
 
 
 def loop_batch(ctx):
@@ -230,8 +260,8 @@ class Setup:
             self.bases = [X.bounded_base(run, 'b%d' % k, k, bounded.get('metrics', 2), bounded.get('aux', 1)) for k in range(nbases)]
             self.xs = X.bounded_batch(run, bounded.get('batch', 2), bounded.get('params', 2))
         self.base = self.bases[0]
-        self.H0 = G(run)
         run.setup = self
+        self.H0 = H0_of(run)
 
 
 def base_calls(run):
@@ -471,6 +501,23 @@ def work(unit, tmo):
     return out
 
 
+def native_standins(chk, unit):
+    """the designed native witnesses of a unit whose symbolic run could not be carried out: a reproduced failure is a violation
+    (a violation found this way wins over the checker error), anything else stays silent."""
+    for n, (mk, pred) in unit.confirm.items():
+        try:
+            sc = mk()
+            obs = run_replay(sc)
+            if 'driver_error' in obs or pred(sc, obs):
+                continue
+        except Exception:
+            continue
+        chk.obligation(n, unit.label, 'native-witness', report.VIOLATED, 0.0,
+                       detail={'refuted_by': 'the symbolic run of this function failed; a designed witness input violates the clause on the real code'},
+                       model='designed witness scenario', replay={'scenario': sc, 'observed': obs, 'replay_cmd': '/venv/bin/python %s <scenario.json>' % REPLAY},
+                       reproduced=True)
+
+
 def is_decided_identity(insts):
     return any(i['verdict'] == 'sat' and i.get('ground_false') for i in insts)
 
@@ -532,16 +579,19 @@ def run_unit(chk, unit):
     if not hints_ok or open_posts or bad:
         refuted = refute(unit, set(posts) if not bad else None)
     violated = False
-    for n in posts:
-        if (st[n] in ('sat', 'unknown') or (st[n] == 'proved' and not hints_ok)) and n in unit.confirm and not (refuted.get(n) and refuted[n][2]):
+    for n in list(unit.confirm):
+        reached = n in by
+        need = (reached and (st[n] in ('sat', 'unknown') or (st[n] == 'proved' and (not hints_ok or bad)))) or (not reached and (bad or not live))
+        if need and not (refuted.get(n) and refuted[n][2]):
             sc = unit.confirm[n][0]()
             obs = run_replay(sc)
             try:
                 rep = (not unit.confirm[n][1](sc, obs)) if 'driver_error' not in obs else None
             except Exception as e:
                 obs, rep = dict(obs, native_check_error=repr(e)), None
-            i0 = ([i for i in by[n] if i['verdict'] == 'sat'] or [i for i in by[n] if i['verdict'] != 'unsat'] or
-                  [dict(by[n][0], verdict='proved only under an unestablished loop contract')])[0]
+            i0 = ([i for i in by.get(n, []) if i['verdict'] == 'sat'] or [i for i in by.get(n, []) if i['verdict'] != 'unsat'] or
+                  [dict(by[n][0], verdict='proved only on the supported paths / under an unestablished loop contract')] if reached else
+                  [{'verdict': 'not reached (the function left the supported subset)', 'describe': '-'}])[0]
             refuted[n] = ('solver %s on the symbolic run (%s); designed witness scenario replayed on the real code\n%s' % (i0['verdict'], i0['describe'], i0.get('model', '')),
                           {'scenario': sc, 'observed': obs, 'replay_cmd': '/venv/bin/python %s <scenario.json>' % REPLAY}, rep)
     for n in posts:
@@ -704,7 +754,7 @@ def sf_entry_evaluate(depth, bounded=None):
         st = Setup(it, bounded=bounded)
         run = it.run
         run.w = sf_construct(it, st.base, depth)
-        st.H0 = G(run)
+        st.H0 = H0_of(run)
         return call_method(it, run.w, 'evaluate', [st.xs])
     return entry
 
@@ -841,7 +891,7 @@ def sf_entry_ps(depth, bounded=None):
         st = Setup(it, bounded=bounded)
         run = it.run
         run.w = sf_construct(it, st.base, depth)
-        st.H0 = G(run)
+        st.H0 = H0_of(run)
         run.roots = [run.w] + st.bases
         run.fp0 = X.state_fingerprint(run.roots)
         run.reach0 = set(X.reachable(run.roots))
@@ -1031,12 +1081,13 @@ def restore_invariant(it, fr, ctx):
     run = it.run
     xs = loop_batch(ctx)
     z = ctx.iter
-    saved = [p for p in z.parts if isinstance(p, X.VList) and p.kind is X.K_PD] if isinstance(z, X.ZipList) else []
+    saved = [p for p in z.parts if isinstance(p, X.VList) and p.kind is X.K_PDOBJ] if isinstance(z, X.ZipList) else []
     if len(saved) != 1:
         raise Unsupported('restore loop without exactly one list of saved parameter dicts')
     prev = saved[0]
     cur, ent = G(run), entry_heap(ctx)
-    return batch_loop_frame(run, ctx, xs, cur, ent, lambda r: z3.And(cur['params'][r] == prev.arr[xs.pos[r]], others_same(cur, ent, r)))
+    # the saved entries are REFERENCES; what is re-installed is the saved object's content (objects are never mutated: other_state)
+    return batch_loop_frame(run, ctx, xs, cur, ent, lambda r: z3.And(cur['params'][r] == ent['pval'][prev.arr[xs.pos[r]]], others_same(cur, ent, r)))
 
 
 def save_transform_invariant(transform):
@@ -1047,16 +1098,16 @@ def save_transform_invariant(transform):
             raise Unsupported('save/transform loop must run over the batch itself')
         xs = loop_batch(ctx)
         cur, ent = G(run), entry_heap(ctx)
-        name, old = find_local(fr, lambda v: (isinstance(v, list) and not v) or (isinstance(v, X.VList) and v.kind in (None, X.K_PD)),
+        name, old = find_local(fr, lambda v: (isinstance(v, list) and not v) or (isinstance(v, X.VList) and v.kind in (None, X.K_PDOBJ)),
                                'the list of saved parameter dicts')
         i = ctx.i
         cl = []
         if isinstance(old, list):
             cl.append(('saved', z3.BoolVal(ctx.phase == 'init' and len(old) == 0)))
         else:
-            old.ensure(it, X.K_PD)
+            old.ensure(it, X.K_PDOBJ)
             j = z3.Int('j!st')
-            cl.append(('saved', z3.And(old.n == i, z3.ForAll([j], z3.Implies(z3.And(j >= 0, j < i), old.arr[j] == ent['params'][xs.arr[j]])))))
+            cl.append(('saved', z3.And(old.n == i, z3.ForAll([j], z3.Implies(z3.And(j >= 0, j < i), old.arr[j] == ent['pobj'][xs.arr[j]])))))
         tr = transform(it, fr)
         return cl + batch_loop_frame(run, ctx, xs, cur, ent, lambda r: z3.And(tr(ent['params'][r], cur['params'][r]), others_same(cur, ent, r)))
     return inv
@@ -1067,7 +1118,7 @@ def wr_entry(construct, bounded=None, raising=False):
         st = Setup(it, bounded=bounded)
         run = it.run
         run.w = construct(it, st)
-        st.H0 = G(run)
+        st.H0 = H0_of(run)
         run.base_may_raise = raising
         return call_method(it, run.w, 'evaluate', [st.xs])
     return entry
@@ -1147,7 +1198,12 @@ def pe_construct(it, st):
     cls = cls_of(PE, 'PermutingExperimenter')
     w = M.construct(it, cls, [st.base, X.Abs('parameters_to_permute')], {'seed': None})
     # the permutation dict (Dict[str, Dict[value, value]]) is abstracted by (perm_has, perm_dom, perm_apply): fully general
-    replace_table(w, X.PermTable(1))
+    names = None
+    if st.bounded is not None and st.xs.desc and st.xs.desc[0]['params']:
+        names = [st.xs.desc[0]['params'][0][0]]             # concrete spine: exactly the first parameter is permuted
+        for k in it.run.strings:
+            it.run.assume(X.perm_has(z3.IntVal(1), k) == z3.BoolVal(any(k.eq(n) for n in names)))
+    replace_table(w, X.PermTable(1, names))
     return w
 
 
@@ -1302,6 +1358,32 @@ def tf_native(short):
             R + 'delegates_once': lambda sc, obs: len(obs.get('base_calls') or []) == 1}
 
 
+def tf_witness(kind):
+    """designed native witness: every feasible value of the transformed parameter occurs in the batch"""
+    def scenario():
+        base = {'params': [{'name': 'a'}, {'name': 'b'}], 'metrics': [{'name': 'obj', 'goal': 'MINIMIZE'}]}
+        vals = [0.125, 0.25, 0.5, 0.75]
+        batch = [{'params': {'a': v, 'b': 0.5}} for v in vals]
+        if kind == 'Shifting':
+            layer = {'module': 'shifting_experimenter', 'class': 'ShiftingExperimenter', 'kwargs': {'shift': [0.0625, 0.0625], 'should_restrict': True}}
+        elif kind == 'Permuting':
+            base['params'][0] = {'name': 'a', 'type': 'DISCRETE', 'feasible': vals}
+            layer = {'module': 'permuting_experimenter', 'class': 'PermutingExperimenter', 'kwargs': {'parameters_to_permute': ['a'], 'seed': 0}}
+        elif kind == 'Discretizing':
+            batch = [{'params': {'a': repr(v), 'b': 0.5}} for v in vals]
+            layer = {'module': 'discretizing_experimenter', 'class': 'DiscretizingExperimenter', 'kwargs': {'discretization': {'a': [repr(v) for v in vals]}}}
+        else:
+            batch = [{'params': {'a': v, 'b': 0.5, '_SP_q': 0.25}} for v in vals]
+            layer = {'module': 'sparse_experimenter', 'class': 'SparseExperimenter', 'kwargs': {'prefix': '_SP', 'sparse_params': [{'name': 'q'}]}}
+        return {'kind': 'evaluate', 'base': base, 'wrappers': [layer], 'batch': batch, 'script': []}
+    return scenario
+
+
+def n_params_and_types_unchanged(sc, obs):
+    return obs.get('exception') is None and all(a['params'] == b['params'] and a['param_types'] == b['param_types']
+                                                for a, b in zip(obs['after'], obs['before']))
+
+
 def units_transformers():
     sh_mapped = lambda run, p0, p1: p1 == sh_map(run.conv, run.shift, p0)
     pe_mapped = lambda run, p0, p1: image_q(run, X.PDI, p0, p1, pe_T)
@@ -1315,7 +1397,9 @@ def units_transformers():
             ('SparseExperimenter.evaluate', 'Sparse', SP, 'SparseExperimenter', sp_construct, sp_mapped, ['__init__', 'evaluate'])):
         R = 'C20.%s.evaluate.' % short
         out.append(Unit(label, short, [(mod, cname + '.' + f) for f in fns], wr_entry(construct), wr_post(R, mapped),
-                        bentry=wr_entry(construct, BOUNDED), scenario=tf_scenario(short), native=tf_native(short)))
+                        bentry=wr_entry(construct, BOUNDED), scenario=tf_scenario(short), native=tf_native(short),
+                        confirm={R + 'parameters_restored': (tf_witness(short), n_params_and_types_unchanged),
+                                 R + 'evaluates_base_at_mapped_point': (tf_witness(short), n_mapped(short))}))
     return out
 
 
@@ -1411,7 +1495,7 @@ def np_entry(bounded=None):
         run = it.run
         run.w = np_construct(it, st)
         run.constructed = True
-        st.H0 = G(run)
+        st.H0 = H0_of(run)
         return call_method(it, run.w, 'evaluate', [st.xs])
     return entry
 
@@ -1511,7 +1595,7 @@ def inf_entry(construct, R, bounded=None):
         run = it.run
         run.w = construct(it, st)
         run.constructed = True
-        st.H0 = G(run)
+        st.H0 = H0_of(run)
 
         def hook(it_, call):
             # every delegation hands over trials of the batch with their suggested parameters
@@ -1590,7 +1674,7 @@ def hc_entry(bounded=None, never_infeasible=False):
         run.w = hc_construct(it, st)
         run.constructed = True
         run.base_never_infeasible = never_infeasible
-        st.H0 = G(run)
+        st.H0 = H0_of(run)
         return call_method(it, run.w, 'evaluate', [st.xs])
     return entry
 
@@ -1749,7 +1833,7 @@ def nz_entry(bounded=None):
         run.constructed = True
         # the constructor evaluates sample trials: the batch under test is created afterwards
         st.xs = X.make_batch(run, 'ys') if bounded is None else X.bounded_batch(run, bounded.get('batch', 2), bounded.get('params', 2), name='y')
-        st.H0 = G(run)
+        st.H0 = H0_of(run)
         if bounded is None:
             s = z3.Const('s!nzci', Str)
             run.axiom(z3.ForAll([s], nz_class_invariant(s)))
@@ -1895,7 +1979,8 @@ def units_normalizing():
     R = 'C20.Normalizing.evaluate.'
     native = {R + 'order_preserved': n_order_preserved, R + 'formula': n_order_preserved, R + 'parameters_unchanged': n_params_unchanged,
               R + 'completes': n_completes(), R + 'status_untouched': n_status, R + 'no_metric_added_or_lost': n_status}
-    out = [Unit('NormalizingExperimenter.evaluate', 'Normalizing', fns, nz_entry(), nz_post, bentry=nz_entry(BOUNDED), scenario=nz_scenario, native=native)]
+    out = [Unit('NormalizingExperimenter.evaluate', 'Normalizing', fns, nz_entry(), nz_post, bentry=nz_entry(BOUNDED), scenario=nz_scenario, native=native,
+                confirm={R + 'order_preserved': (nz_witness_scenario, n_order_preserved)})]
     out.append(Unit('NormalizingExperimenter.evaluate(lemma)', 'Normalizing', [], nz_lemma_entry, nz_lemma_post))
     _, std_rhs = nz_table_roles()
     for k in range(len(std_rhs)):
@@ -2041,7 +2126,7 @@ def no_entry(bounded=None):
             run.strings = base_strs + cc
         run.w = no_construct(it, st)
         run.constructed = True
-        st.H0 = G(run)
+        st.H0 = H0_of(run)
         return call_method(it, run.w, 'evaluate', [st.xs])
     return entry
 
@@ -2298,7 +2383,7 @@ def ps_entry(construct, nbases=1, bounded=None):
         run = it.run
         run.w = construct(it, st)
         run.constructed = True
-        st.H0 = G(run)
+        st.H0 = H0_of(run)
         run.roots = [run.w] + st.bases + ([run.caller_ps] if getattr(run, 'caller_ps', None) is not None else [])
         run.fp0 = X.state_fingerprint(run.roots)
         run.reach0 = set(X.reachable(run.roots))
@@ -2545,7 +2630,7 @@ def sw_entry(never_infeasible=False):
         run.w = sw_construct(it, st)
         run.constructed = True
         run.base_never_infeasible = never_infeasible
-        st.H0 = G(run)
+        st.H0 = H0_of(run)
         if never_infeasible:
             # residual class: the given trials are not yet completed / infeasible and the wrapped experimenters mark none infeasible
             j = z3.Int('j!swp')
@@ -2707,4 +2792,5 @@ def main(tier):
         except Exception as e:      # a crash of the checker is a checker error, never a verdict
             import traceback
             chk.error('C20.%s.checker' % u.label, 'checker crashed: %r\n%s' % (e, traceback.format_exc()[-1200:]))
+            native_standins(chk, u)
     return chk.finish(min_obligations=250)
